@@ -655,7 +655,7 @@ MangleAnswer(d, how, newcid) ==
                  [] how = "cid" -> m
                  [] how = "eph" -> [m EXCEPT !.eph = 0]
                  [] how = "ephauth" -> [m EXCEPT !.eph = 0, !.auth = [e1 |-> m.auth.e1, e2 |-> 0]]
-                 [] how = "auth" -> [m EXCEPT !.auth = [e1 |-> 0, e2 |-> 0]]
+                 [] how = "auth" -> [m EXCEPT !.auth = [e1 |-> m.auth.e1, e2 |-> 0 - 1]]   \* a tag that verifies for no key
                  [] how = "cands" -> [m EXCEPT !.cands = [k |-> AdvKey, v |-> m.cands.v]]
      IN net' = (net \ {d}) \cup {[d EXCEPT !.m = m2, !.cid = IF how = "cid" THEN newcid ELSE @]}
   /\ UNCHANGED ctr /\ AdvFrame
@@ -723,7 +723,7 @@ ExitIntegrity == \A e \in hist.exitLog : Has(hist.sent, e.p) /\ hist.sent[e.p].d
 ReturnIntegrity == \A e \in hist.origLog : Has(hist.sent, e.p) /\ hist.sent[e.p].o = e.n /\ hist.sent[e.p].cid = e.cid
                                            /\ e.origin = "outside"
 \* on link i of a k-hop path a forward cell carries k-i layers (>= 1), a backward cell i layers counted from the exit
-HonestData(d) == d.t = "cell" /\ d.m.t = "data" /\ Has(hist.sent, d.m.p) /\ "taint" \notin DOMAIN d.m
+HonestData(d) == d.t = "cell" /\ d.m.t = "data" /\ Has(hist.sent, d.m.p) /\ "taint" \notin DOMAIN d.m /\ "altered" \notin DOMAIN d.m
 LayerDepth ==
   \A d \in net : HonestData(d) /\ (\A l \in DOMAIN d.L : d.L[l].ok) =>
      LET s == hist.sent[d.m.p] IN
@@ -734,8 +734,9 @@ LayerDepth ==
            /\ (d.m.origin # Null /\ i > 0) => Len(d.L) = k - i + 1
 \* neither the plaintext nor an equal ciphertext of a payload is visible on two different links
 NoRepeatOnLinks ==
-  \A d1, d2 \in wire : (HonestData(d1) /\ HonestData(d2) /\ d1.m.p = d2.m.p /\ d1.m.origin = d2.m.origin
-                        /\ <<d1.src, d1.dst>> # <<d2.src, d2.dst>>) => (d1.L # d2.L /\ d1.L # <<>>)
+  LET H == {d \in wire : HonestData(d)} IN
+  \A d1, d2 \in H : (d1.m.p = d2.m.p /\ d1.m.origin = d2.m.origin /\ <<d1.src, d1.dst>> # <<d2.src, d2.dst>>)
+                      => (d1.L # d2.L /\ d1.L # <<>>)
 
 (* ---- C05 ---- *)
 \* all payloads that leave through one exit entry were sent into one and the same circuit, and vice versa
